@@ -36,7 +36,7 @@ def run(ctx, drv):
                            "assignment to Problem.constraints); each accepted constraint probed at threshold, its float neighbours, "
                            "+-1, +-1e300, +-inf, sub-delta offsets and random values; multi-constraint solutions through "
                            "Problem.__call__. non-trivial = accepted expression probed at >= 1 violating and >= 1 satisfying value, "
-                           "or a rejected malformed expression; distinct by request line")
+                           "or a rejected malformed expression; distinct by request line + thresholds with long mantissas / big ints in every spelling, broadcasts over partial slices in any order, evaluation through Algorithm.evaluate_all with an evaluator that returns copies")
     ops_ok = ["==", "<=", ">=", "!=", "<", ">"]
     ops_bad = ["", "=", "=<", "=>", "<>", "===", "!", "<<", "!==", "~=", "=!"]
     wss = ["", " ", "  ", "\t", " \t ", " ", "\n"]
